@@ -93,13 +93,17 @@ class Client(kernel.Actor):
 
     def label(self):
         it = self.script[self.pos]
-        return "c%d:%s" % (self.idx, it[0])
+        return "c%d:%s" % (self.idx, "send" if it[0] == "dyn" else it[0])
 
     def fire(self):
         import falcon
         it = self.script[self.pos]
         self.pos += 1
         self.sleep_until = None
+        if it[0] == "dyn":
+            # frame computed when it is sent (e.g. a NIP-42 answer to the challenge received)
+            text = self.world.dyn[it[1]](self, it[2] if len(it) > 2 else None)
+            it = ["send", text]
         if it[0] == "send":
             self.frames.append({"i": self.pos - 1, "text": it[1], "t_deliver": self.sim.stamp(),
                                 "t_done": None})
@@ -139,8 +143,59 @@ class RelayWorld:
         self.log = logging.getLogger("nostr_relay.sim")
         self.registry_hook = None
         self.final = {}
+        self.dyn = {"auth": self.build_auth}
         self.before_clients = None   # async callback(world) after storage is open
         self.at_quiescence = None    # async callback(world) at quiescence, before the drain
+
+    def challenge_of(self, client):
+        import json
+        for seq, text in client.transcript:
+            try:
+                m = json.loads(text)
+            except Exception:
+                continue
+            if isinstance(m, list) and len(m) == 2 and m[0] == "AUTH":
+                return m[1]
+        return None
+
+    def build_auth(self, client, spec):
+        """NIP-42 answer; spec: {key, kind, url, challenge: own|other:<idx>|literal:<s>|none, dt,
+        sign_with, extra_tags, drop, dup}"""
+        import json
+        from .. import evgen
+        spec = spec or {}
+        key = evgen.KEYS[spec.get("key", 0)]
+        ch = spec.get("challenge", "own")
+        if ch == "own":
+            chal = self.challenge_of(client)
+        elif ch.startswith("other:"):
+            chal = self.challenge_of(self.clients[int(ch[6:])])
+        elif ch.startswith("literal:"):
+            chal = ch[8:]
+        else:
+            chal = None
+        tags = []
+        if spec.get("url", "ws://relay.example") is not None:
+            tags.append(["relay", spec.get("url", "ws://relay.example")])
+        if chal is not None:
+            tags.append(["challenge", chal])
+        tags += spec.get("extra_tags", [])
+        if spec.get("dup"):
+            tags = tags + [list(t) for t in tags if t[0] == spec["dup"]]
+        if spec.get("drop"):
+            tags = [t for t in tags if t[0] != spec["drop"]]
+        now = int(self.sim.clock.wall()) + int(spec.get("client_skew", 0))
+        ev = evgen.make(key, kind=spec.get("kind", 22242), created_at=now + int(spec.get("dt", 0)), tags=tags,
+                        content=spec.get("content", ""))
+        sw = spec.get("sign_with")
+        if sw is not None:
+            ev["sig"] = evgen.KEYS[sw].sign(bytes.fromhex(ev["id"]))
+        if spec.get("corrupt_sig"):
+            ev["sig"] = ev["sig"][:-2] + ("00" if ev["sig"][-2:] != "00" else "01")
+        if spec.get("claim_pubkey") is not None:
+            ev["pubkey"] = evgen.KEYS[spec["claim_pubkey"]].pub
+        client.auth_sent = getattr(client, "auth_sent", []) + [ev]
+        return json.dumps(["AUTH", ev])
 
     def registry(self):
         """{client idx: [sub ids]} from storage.clients (public attribute), read passively"""
